@@ -11,7 +11,10 @@
      C15_progress         number of steps of any schedule <= total_work
      C15_calls_complete   from every reachable state some schedule finishes all threads
      C15_stuck_is_finished  a state where nothing is enabled has all threads finished
-*)
+
+   All of this holds for ARBITRARY fault parameters bad / ckbad: the error exits only shorten a
+   call (PRen -> PDropI -> return instead of the 8 remaining steps of a put; WUnlink -> return),
+   so the measure and the bound total_work are unchanged. *)
 From Cas Require Import Base Codec SMap Index Conc.
 From CasProofs Require Import SMapProofs IndexProofs ConcInv ConcProofs.
 From Coq Require Import List NArith Lia Bool Arith.
@@ -54,7 +57,7 @@ Definition wsize (w : wkind) : nat :=
 Definition pc_work (B : nat) (p : pc) : nat :=
   match p with
   | Idle => 0
-  | PReg _ _ => 11 | PILock _ _ => 10 | PRen _ _ => 9
+  | PReg _ _ => 11 | PILock _ _ => 10 | PRen _ _ _ => 9 | PDropI _ _ _ => 8
   | WLockI w => 7 + wsize w | WLockS w => 6 + wsize w | WLockW w => 5 + wsize w
   | WApplied _ un _ => 4 + length un
   | WUnlink _ todo _ => 3 + length todo
@@ -82,7 +85,7 @@ Definition work (B : nat) (ts : tstate) : nat := calls_work B (t_calls ts) + pc_
 (* pending puts: what can still add a key *)
 Definition pc_put (p : pc) : nat :=
   match p with
-  | PReg _ _ | PILock _ _ | PRen _ _
+  | PReg _ _ | PILock _ _ | PRen _ _ _
   | WLockI (WPut _ _ _) | WLockS (WPut _ _ _) | WLockW (WPut _ _ _) => 1
   | _ => 0
   end.
@@ -169,6 +172,8 @@ Section Progress.
   Hypothesis cmp_antisym : forall a b, cmp b a = CompOpp (cmp a b).
   Hypothesis cmp_trans : forall a b c, cmp a b = Lt -> cmp b c = Lt -> cmp a c = Lt.
   Variable nops : N.
+  Variable bad : bytes -> bool.
+  Variable ckbad : bool.
   Variable thr0 : list (nat * list ccall).
   Hypothesis thr0_nodup : NoDup (map fst thr0).
   Variable cas0 : smap bytes.
@@ -178,9 +183,9 @@ Section Progress.
     forall a b, In a (allc thr0 cas0) -> In b (allc thr0 cas0) -> H a = H b -> a = b.
 
   Local Notation KX L := (L cmp cmp_refl cmp_eq cmp_antisym cmp_trans) (only parsing).
-  Local Notation Inv := (ConcInv H cmp thr0 cas0).
-  Local Notation Reach := (reachable H cmp nops thr0 cas0).
-  Local Notation step := (cstep H cmp nops).
+  Local Notation Inv := (ConcInv H cmp bad thr0 cas0).
+  Local Notation Reach := (reachable H cmp nops bad ckbad thr0 cas0).
+  Local Notation step := (cstep H cmp nops bad ckbad).
 
   Ltac head_destruct :=
     repeat (match goal with
@@ -198,7 +203,7 @@ Section Progress.
     destruct (t_pc ts) eqn:Hpc;
       try (solve [
         head_destruct; try discriminate; intros E; injection E as <-;
-        unfold finish, set_pc; cbn [g_idx g_thr t_calls t_res t_pc];
+        unfold finish, set_pc; cbn [g_idx g_thr t_calls t_res t_pc km];
         match goal with |- context [tset (g_thr g) t ?x] =>
           pose proof (tsum_tset pp _ _ _ x Ht) as X end;
         rewrite !pp_unfold in X; cbn [t_calls t_pc] in X; rewrite ?Hpc in X;
@@ -227,7 +232,7 @@ Section Progress.
   Lemma km_bound g : Reach g -> KmBound g.
   Proof using cmp_refl cmp_eq cmp_antisym cmp_trans.
     intros [sched ->].
-    assert (A : forall s g0, KmBound g0 -> KmBound (crun H cmp nops g0 s)).
+    assert (A : forall s g0, KmBound g0 -> KmBound (crun H cmp nops bad ckbad g0 s)).
     { induction s as [|t s IH]; intros g0 K0; cbn [crun]; [exact K0|].
       destruct (step g0 t) as [g1|] eqn:St; [|apply IH, K0].
       apply IH. eapply km_bound_step; eassumption. }
@@ -307,12 +312,12 @@ Section Progress.
     end.
 
   Lemma csteps_bound sched : forall g, Reach g ->
-    csteps g sched + potential (crun H cmp nops g sched) <= potential g.
+    csteps g sched + potential (crun H cmp nops bad ckbad g sched) <= potential g.
   Proof using cmp_refl cmp_eq cmp_antisym cmp_trans.
     induction sched as [|t r IH]; intros g R; cbn [csteps crun]; [lia|].
     destruct (step g t) as [g'|] eqn:St; [|apply IH, R].
     pose proof (C15_potential_decreases g t g' R St).
-    specialize (IH g' (reachable_step _ _ _ _ _ _ _ _ R St)). lia.
+    specialize (IH g' (reachable_step _ _ _ _ _ _ _ _ _ _ R St)). lia.
   Qed.
 
   (* sum over all threads and calls of call_work *)
@@ -321,7 +326,7 @@ Section Progress.
   (* any schedule performs at most total_work steps *)
   Theorem C15_progress sched : csteps (init_c thr0 cas0) sched <= total_work.
   Proof using cmp_refl cmp_eq cmp_antisym cmp_trans.
-    pose proof (csteps_bound sched _ (reachable_init H cmp nops thr0 cas0)) as Bd.
+    pose proof (csteps_bound sched _ (reachable_init H cmp nops bad ckbad thr0 cas0)) as Bd.
     unfold total_work. unfold potential in Bd at 2. lia.
   Qed.
 
@@ -336,13 +341,13 @@ Section Progress.
      to completion (by deadlock freedom some thread can always move, and the potential
      bounds the number of moves), whatever happened before *)
   Theorem C15_calls_complete g : Reach g ->
-    exists sched, all_finished (crun H cmp nops g sched) = true.
+    exists sched, all_finished (crun H cmp nops bad ckbad g sched) = true.
   Proof using cmp_refl cmp_eq cmp_antisym cmp_trans thr0_nodup cas0_sorted cas0_named NoCollideC.
     assert (A : forall n g0, potential g0 < n -> Reach g0 ->
-                             exists sched, all_finished (crun H cmp nops g0 sched) = true).
+                             exists sched, all_finished (crun H cmp nops bad ckbad g0 sched) = true).
     { clear g. induction n as [|n IH]; intros g Pn R; [lia|].
       destruct (all_finished g) eqn:AF; [exists []; exact AF|].
-      destruct (C15_deadlock_free H cmp cmp_refl cmp_eq cmp_antisym cmp_trans nops thr0
+      destruct (C15_deadlock_free H cmp cmp_refl cmp_eq cmp_antisym cmp_trans nops bad ckbad thr0
                   thr0_nodup cas0 cas0_sorted cas0_named NoCollideC g R AF) as [t En].
       unfold enabled in En. destruct (step g t) as [g'|] eqn:St; [|discriminate].
       pose proof (C15_potential_decreases g t g' R St) as D.
@@ -353,10 +358,10 @@ Section Progress.
 
   (* a run that stops only when nothing is enabled ends with all threads finished *)
   Theorem C15_stuck_is_finished g : Reach g ->
-    (forall t, enabled H cmp nops g t = false) -> all_finished g = true.
+    (forall t, enabled H cmp nops bad ckbad g t = false) -> all_finished g = true.
   Proof using cmp_refl cmp_eq cmp_antisym cmp_trans thr0_nodup cas0_sorted cas0_named NoCollideC.
     intros R Stuck. destruct (all_finished g) eqn:AF; [reflexivity|].
-    destruct (C15_deadlock_free H cmp cmp_refl cmp_eq cmp_antisym cmp_trans nops thr0
+    destruct (C15_deadlock_free H cmp cmp_refl cmp_eq cmp_antisym cmp_trans nops bad ckbad thr0
                 thr0_nodup cas0 cas0_sorted cas0_named NoCollideC g R AF) as [t En].
     rewrite Stuck in En. discriminate.
   Qed.
